@@ -9,6 +9,7 @@ from vf.hyp import drive
 from vf.runner import Collector
 
 ID = "C08"
+EARLY_ATTRIBUTION = True  # region predicates are cheap scans of the stored case
 LEVEL = "exploration"
 RULE = ("For every covered ATen/prims overload registered in onnxscript's torch_lib registry (get_torchlib_ops) a per-family generator "
         "(vf/torchlib.py) builds ATen-level argument tuples from ONE Hypothesis-drawn integer per case (it seeds numpy's Generator, so a "
